@@ -169,6 +169,21 @@ pub fn explains(f: &Finding, sc: &Scenario, v: &Violation, root_text: &str) -> b
         // yields nothing: `Path` drops interior `.` components, so the relative segment of an
         // entry never carries the `./` the complete program demands. Explains missing entries
         // only (never an extra one), and only for such globs.
+        // F12: under ReadTarget a link to a directory that cannot be opened produces an error item
+        // without a path (walkdir looks for a cycle by opening the target and wraps the failure
+        // without one). Explains only the "names no path" items of such links.
+        "pathless-error-for-link-to-unopenable-directory" => {
+            // (the path may itself lead through followed links: the node it denotes is a link)
+            let model = crate::model::Model::from_tree(&sc.tree).ok();
+            !v.items.is_empty()
+                && v.items.iter().all(|i| match (i.strip_prefix("pathless:"), &model) {
+                    (Some(p), Some(m)) => match m.resolve(p, false) {
+                        Ok(node) => matches!(m.get(&node).map(|i| &i.kind), Some(Kind::Link { .. })),
+                        Err(_) => false,
+                    },
+                    _ => false,
+                })
+        },
         "curdir-prefix-yields-nothing" => {
             matches!(&w.source, Source::Glob { expr, rooted: false } if dot_kind(first_component(expr)) == Some("."))
                 && !v.items.is_empty()
